@@ -19,8 +19,10 @@ EXPLANATION = (
     'logged, not returned); (R5) <ReadBufPool as Drop>::drop unregisters the ring before both deallocs, each '
     'dealloc layout comes from the same alloc_layout_* function with the same field arguments as in new, the '
     "buffers' dealloc is on the non-null edge; (R6) a descriptor dropped after its Ring must notice that "
-    'nobody will submit the queued CLOSE — known finding K5. Absence of crashes for all permutations at run '
-    'time is not decided.'
+    'nobody will submit the queued CLOSE — known finding K5; (R8/R9) an AsyncFd dropped in any state releases '
+    'exactly its own descriptor (C07.R4/R5: queued close XOR one synchronous close of the right kind, '
+    'encodings name the descriptor itself). Absence of crashes for all permutations at run time is not '
+    'decided.'
 )
 NOT_DECIDED = "crash-freedom for every permutation of drops at run time"
 ASSUMPTIONS = ["struct fields are dropped after the Drop::drop body (language guarantee)"]
